@@ -158,6 +158,11 @@ func newEventFromUntrustedJSONV2(eventJSON []byte, roomVersion IRoomVersion) (PD
 		return nil, err
 	}
 
+	// The event ID of this format is computed, never read: "event_id" was stripped above, but the
+	// struct decoding also matches case variants of the key ("Event_id"), which must not be
+	// able to choose the event's ID.
+	res.EventIDRaw = ""
+
 	if err := checkRoomIDField(res.eventFields.RoomID); err != nil {
 		return nil, err
 	}
@@ -188,6 +193,10 @@ func newEventFromUntrustedJSONV2(eventJSON []byte, roomVersion IRoomVersion) (PD
 			return nil, err
 		}
 
+		// (the redaction keep-list re-emits a case variant of event_id under its proper name)
+		if redactedJSON, err = sjson.DeleteBytes(redactedJSON, "event_id"); err != nil {
+			return nil, err
+		}
 		redactedJSON = CanonicalJSONAssumeValid(redactedJSON)
 
 		// We need to ensure that `result` is the redacted event.
